@@ -188,6 +188,26 @@ func runTruncate(c *core.Ctx, codec string) {
 		enc = "xz-multiblock"
 	}
 	comp, err := gen.Compress(enc, text)
+	// one case in three: a file made of two or three members (streams, frames) compressed on their
+	// own, cut anywhere in the text. A cut exactly between two members leaves a complete, shorter
+	// file and is not a fault; every other cut is, the first bytes of a later member included.
+	var memberStarts []int
+	if c.Idx%3 == 2 && len(text) > 8 {
+		var parts [][]byte
+		prev := 0
+		for i := 0; i < 1+c.Rng.Intn(2); i++ {
+			at := prev + 1 + c.Rng.Intn(len(text)-prev-1)
+			if at >= len(text) {
+				break
+			}
+			parts = append(parts, text[prev:at])
+			prev = at
+		}
+		parts = append(parts, text[prev:])
+		comp, memberStarts, err = gen.CompressMembers(codec, parts)
+		enc = codec + "-members"
+		c.Count("multi_member_files", 1)
+	}
 	if err != nil {
 		c.Inconclusive("cannot compress: " + err.Error())
 		return
@@ -239,13 +259,32 @@ func runTruncate(c *core.Ctx, codec string) {
 			have[k] = true
 		}
 	}
+	isStart := map[int]bool{}
+	for _, st := range memberStarts {
+		isStart[st] = true
+		for k := st - 9; k <= st+14; k++ { // the trailer of the previous member, the header of this one
+			if k >= 6 && k < len(comp) && !have[k] {
+				pts = append(pts, k)
+				have[k] = true
+			}
+		}
+	}
 	for _, k := range pts {
+		if isStart[k] {
+			continue
+		}
 		os.WriteFile(base, comp[:k], 0o644)
 		t := tg[(k+c.Idx)%len(tg)]
 		if !c.Quick() && len(comp) <= 600 {
 			// tiny files: every command on every cut
 			for _, tt := range tg {
-				checkTrunc(c, codec, class, tt, base, k, len(comp), n)
+				checkTrunc(c, codec, class, tt, base, k, len(comp), n, isStart[k-1])
+			}
+			continue
+		}
+		if isStart[k-1] || isStart[k-2] { // the first bytes of a later member: every command
+			for _, tt := range tg {
+				checkTrunc(c, codec, class, tt, base, k, len(comp), n, isStart[k-1])
 			}
 			continue
 		}
@@ -290,7 +329,7 @@ func runTruncateFlat(c *core.Ctx, codec, format string, n int, class string) {
 	}
 }
 
-func checkTrunc(c *core.Ctx, codec, class string, t target, path string, k, total, n int) {
+func checkTrunc(c *core.Ctx, codec, class string, t target, path string, k, total, n int, afterStart ...bool) {
 	res := runCmd(c, t, path)
 	c.Count("evaluations", 1)
 	c.Count("truncation_points", 1)
@@ -316,7 +355,13 @@ func checkTrunc(c *core.Ctx, codec, class string, t target, path string, k, tota
 	}
 	if res.Exit == 0 {
 		recs := bytes.Count(res.Stdout, []byte("\n>")) + bytes.Count(res.Stdout, []byte("\n@"))
-		c.Violate(fmt.Sprintf("exit0:%s:%s", codec, t.name), "the command exits 0 although its compressed input is cut short",
+		cause := fmt.Sprintf("exit0:%s:%s", codec, t.name)
+		if len(afterStart) > 0 && afterStart[0] {
+			// the file ends one byte into a later member: half a magic number
+			cause += ":later-member-magic-incomplete"
+			where = "later-member-magic"
+		}
+		c.Violate(cause, "the command exits 0 although its compressed input is cut short",
 			map[string]any{"codec": codec, "command": t.bin, "args": t.args, "stdin": t.stdin, "cut_at": k, "of": total, "records_in_file": n, "approx_records_output": recs, "where": where, "stderr": cmdx.Tail(res.Stderr, 600)})
 	}
 }
@@ -513,6 +558,16 @@ func runBitflip(c *core.Ctx, codec string) {
 	fastq := c.Idx%2 == 1
 	text := seqText(c.Rng, n, fastq)
 	comp, err := gen.Compress(codec, text)
+	later := -1 // offset of the second member of a two-member file
+	if c.Idx%3 == 2 && len(text) > 8 {
+		at := 1 + c.Rng.Intn(len(text)-1)
+		var starts []int
+		comp, starts, err = gen.CompressMembers(codec, [][]byte{text[:at], text[at:]})
+		if len(starts) == 1 {
+			later = starts[0]
+			c.Count("multi_member_files", 1)
+		}
+	}
 	if err != nil {
 		c.Inconclusive("cannot compress: " + err.Error())
 		return
@@ -566,6 +621,16 @@ func runBitflip(c *core.Ctx, codec string) {
 			}
 		}
 	}
+	if later >= 0 { // the header of the second member: every bit of its first four bytes, some of the next
+		for b := later * 8; b < (later+4)*8 && b < nbits; b++ {
+			flips = append(flips, b)
+		}
+		for i := 0; i < 8; i++ {
+			if b := (later+4)*8 + c.Rng.Intn(6*8); b < nbits {
+				flips = append(flips, b)
+			}
+		}
+	}
 	for fi, b := range flips {
 		mut := append([]byte{}, comp...)
 		mut[b/8] ^= 1 << uint(b%8)
@@ -578,9 +643,14 @@ func runBitflip(c *core.Ctx, codec string) {
 		} else if b/8 >= len(comp)-32 {
 			region = "trailer"
 		}
+		if later >= 0 && b/8 >= later && b/8 < later+2 {
+			region = "later-member-magic"
+		} else if later >= 0 && b/8 >= later+2 && b/8 < later+10 {
+			region = "later-member-header"
+		}
 		for ti, t := range tgs {
-			structural := codec == "xz" && b/8 == 12                                 // size byte of the first block header: every target, always
-			if !structural && ti != fi%len(tgs) && (c.Quick() || region == "body") { // every target on the header and trailer bits in the thorough tier
+			structural := (codec == "xz" && b/8 == 12) || strings.HasPrefix(region, "later-member") // size byte of the first block header, header of a later member: every target, always
+			if !structural && ti != fi%len(tgs) && (c.Quick() || region == "body") {                // every target on the header and trailer bits in the thorough tier
 				continue
 			}
 			res := runCmd(c, t, base)
